@@ -1,7 +1,7 @@
 (** Output side: Serialize impls (value -> JSON tree), the compact JSON text
     that serde_json writes, logfmt rows. *)
 From Coq Require Import List ZArith NArith Bool Floats.SpecFloat.
-From AG Require Import Str F64 Value Json Expr Ops Pipeline DatePaths.
+From AG Require Import Str F64 Value Json Expr Ops Pipeline DatePaths DurFmt.
 Import ListNotations.
 Open Scope string_scope.
 Open Scope list_scope.
@@ -85,3 +85,8 @@ Definition ser_date : Z -> str :=
 Definition value_json (fmt_dur : Z -> str) : value -> jtree := value_to_json ser_date fmt_dur.
 Definition record_json (fmt_dur : Z -> str) : data -> jtree := record_to_json ser_date fmt_dur.
 Definition table_json (fmt_dur : Z -> str) : table -> jtree := table_to_json ser_date fmt_dur.
+
+(** fully instantiated: the duration text of the JSON output is [d.to_string()], chrono's Display for TimeDelta (DurFmt.v) *)
+Definition value_json' : value -> jtree := value_to_json ser_date fmt_dur_iso.
+Definition record_json' : data -> jtree := record_to_json ser_date fmt_dur_iso.
+Definition table_json' : table -> jtree := table_to_json ser_date fmt_dur_iso.
